@@ -439,6 +439,9 @@ def run(ctx: Ctx):
     # ------------------------------------------------------------- FRESH: history independence of returned objects (spec/Fresh.tla)
     from vf import fresh
     fresh.step(ctx, "C10")
+    # ------------------------------------------------------------- VIEW: views after every edit history (spec/View.tla)
+    from vf import view
+    view.step(ctx, "C10")
     return ctx.finish(rule=(
         "all insertion histories of length <=4/5 over 8 add operations (incl. repeated names, case variants, parameter insertion "
         "orders) and 2 subcomponents; 120+ programs under 4 hash seeds; random typed trees validated by TLC; non-trivial = "
